@@ -852,6 +852,18 @@ def t_hetfacts():
         "curlyY = {k: np.vdot(D, shocked_outputs[k]) for k in output_list}", "curlyY[k] += np.vdot(Dbeg, shock)", "return (curlyV, curlyD, curlyY)"))
     dmn = ast.unparse(find_def('utilities/misc.py', 'demean'))
     facts['demean_subtracts_mean'] = 'return x - x.sum() / x.size' in dmn
+    # utilities/multidim.py: the exact sequence of numpy operations that Model/Multidim.v models (any change of an axis operation breaks the obligation)
+    def body_of(q):
+        fn = find_def('utilities/multidim.py', q)
+        return [ast.unparse(b) for b in fn.body if not (isinstance(b, ast.Expr) and isinstance(b.value, ast.Constant))]
+    facts['multidim_ops_multiply'] = body_of('multiply_ith_dimension') == ['X = X.swapaxes(0, i)', 'shape = X.shape', 'X = X.reshape((shape[0], -1))', 'X = Pi @ X',
+                                                                           'X = X.reshape((Pi.shape[0], *shape[1:]))', 'return X.swapaxes(0, i)']
+    facts['multidim_ops_batch'] = body_of('batch_multiply_ith_dimension') == ['P = P.swapaxes(1, 1 + i)', 'X = X.swapaxes(0, i)', 'Pshape = P.shape', 'P = P.reshape((*Pshape[:2], -1))',
+                                                                              'X = X.reshape((X.shape[0], -1))', "X = np.einsum('ijb,jb->ib', P, X)", 'X = X.reshape(Pshape[0], *Pshape[2:])',
+                                                                              'return X.swapaxes(0, i)']
+    hsup = 'blocks/support/het_support.py'
+    facts['markov_uses_ith_dimension'] = ('return multiply_ith_dimension(self.Pi_T, self.i, D)' in ast.unparse(find_def(hsup, 'Markov.forward'))
+                                          and 'return multiply_ith_dimension(self.Pi, self.i, X)' in ast.unparse(find_def(hsup, 'Markov.expectation')))
     sbs = find_def('blocks/stage_block.py', 'StageBlock.backward_steady_state')
     ssrc = ast.unparse(sbs)
     sloops = [n for n in sbs.body if isinstance(n, ast.For) and n.orelse]
